@@ -9,7 +9,8 @@ for d in seeded/$ID-*; do
   P=$PWD/$d/patch.diff; if ! git -C $R apply --check $P 2>/dev/null && [ -f $PWD/$d/patch.head.diff ]; then P=$PWD/$d/patch.head.diff; fi
   if ! git -C $R apply --check $P 2>/dev/null; then echo "$d: patch does not apply to current HEAD"; echo "patch does not apply to /repo HEAD any more (the site was changed by a fix: commit)" > $d/result.txt; continue; fi
   git -C $R apply $P
-  DEMO=$(cd $d && PYTHONPATH=$R PYTHONHASHSEED=0 timeout 900 /venv/bin/python -W ignore demo.py >/dev/null 2>&1; echo $?)
+  DM=demo.py; case $P in *patch.head.diff) [ -f $d/demo.head.py ] && DM=demo.head.py;; esac
+  DEMO=$(cd $d && PYTHONPATH=$R PYTHONHASHSEED=0 timeout 900 /venv/bin/python -W ignore $DM >/dev/null 2>&1; echo $?)
   OUT=$(VERIF_REPO=$R ./check $ID --tier $TIER 2>/dev/null | grep -E "^VIOLATION|^$ID " | head -4)
   RC=$(echo "$OUT" | grep -c "^VIOLATION")
   git -C $R checkout -- .
